@@ -526,6 +526,8 @@ SKELETON_FUNCS = {
                          "janetc_funopt"],
     "src/core/corelib.c": ["janet_quick_asm"],
     "src/core/specials.c": ["janetc_check_nil_form"],
+    # operand loads of emit.c (model: Spec/Operand.lean `regnear` / `loadInstr`; theorem `operands_loaded`)
+    "src/core/emit.c": ["janetc_movenear", "janetc_regnear", "janetc_emit_sss", "emit2s"],
 }
 
 
